@@ -38,8 +38,20 @@ type c17eInst struct {
 
 type c17eHold struct {
 	id   int
+	w    *c17eWorker
 	inst *c17eInst
 	done func()
+}
+
+// c17eWorker — one of the 1-3 Workers of a case with its own instances (Workers are independent of each other:
+// whatever happens to one must not show on another, also not through state the package keeps between uses).
+type c17eWorker struct {
+	id      int
+	w       bigbuff.Worker
+	mu      sync.Mutex
+	insts   []*c17eInst
+	running atomic.Int32
+	overlap atomic.Bool
 }
 
 func (in *c17eInst) stopped() bool {
@@ -57,16 +69,16 @@ func TestC17Early(t *testing.T) {
 		var trace []string
 		vkit.CaseStart(func() string { return strings.Join(trace, " ; ") })
 		sawEarlyHeld := false
+		nWorkers := rapid.SampledFrom([]int{1, 1, 2, 3}).Draw(t, "workers")
 		rapid.SyncTest(t, func(t *rapid.T) {
 			var (
-				w       bigbuff.Worker
-				mu      sync.Mutex
-				insts   []*c17eInst
-				running atomic.Int32
-				overlap atomic.Bool
-				holds   []*c17eHold
-				nHold   int
+				holds []*c17eHold
+				nHold int
 			)
+			ws := make([]*c17eWorker, nWorkers)
+			for i := range ws {
+				ws[i] = &c17eWorker{id: i}
+			}
 			fail := func(sig, f string, a ...any) {
 				msg := fmt.Sprintf(f, a...)
 				vkit.Announce(sig, "%s\ntrace: %s", msg, strings.Join(trace, " ; "))
@@ -77,52 +89,56 @@ func TestC17Early(t *testing.T) {
 			}
 			check := func(when string) {
 				synctest.Wait()
-				if overlap.Load() {
-					fail("C17/two-instances-running", "%s: two instances of the worker function were running at once", when)
-				}
-				mu.Lock()
-				all := append([]*c17eInst(nil), insts...)
-				mu.Unlock()
-				for _, in := range all {
-					held := 0
-					for _, h := range holds {
-						if h.inst == in {
-							held++
+				for _, x := range ws {
+					if x.overlap.Load() {
+						fail("C17/two-instances-running", "%s: two instances of the function of worker %d were running at once", when, x.id)
+					}
+					x.mu.Lock()
+					all := append([]*c17eInst(nil), x.insts...)
+					x.mu.Unlock()
+					for _, in := range all {
+						held := 0
+						for _, h := range holds {
+							if h.inst == in {
+								held++
+							}
 						}
-					}
-					if held > 0 && in.stopped() {
-						fail("C17/stopped-while-held", "%s: the stop channel of instance i%d (returns on its own: %v) is closed while %d of its holders have not called done", when, in.id, in.early, held)
-					}
-					if held == 0 && !in.stopped() {
-						fail("C17/not-stopped-when-unheld", "%s: nobody holds instance i%d (returns on its own: %v) any more but its stop channel is still open at quiescence", when, in.id, in.early)
-					}
-					if in.early && held > 0 {
-						sawEarlyHeld = true
+						if held > 0 && in.stopped() {
+							fail("C17/stopped-while-held", "%s: the stop channel of instance w%d.i%d (returns on its own: %v) is closed while %d of its holders have not called done", when, x.id, in.id, in.early, held)
+						}
+						if held == 0 && !in.stopped() {
+							fail("C17/not-stopped-when-unheld", "%s: nobody holds instance w%d.i%d (returns on its own: %v) any more but its stop channel is still open at quiescence", when, x.id, in.id, in.early)
+						}
+						if in.early && held > 0 {
+							sawEarlyHeld = true
+						}
 					}
 				}
 			}
 			t.Repeat(vkit.NoStarve(map[string]func(*rapid.T){
 				"do": func(t *rapid.T) {
-					if len(holds) >= 5 {
+					if len(holds) >= 5+nWorkers {
 						t.Skip("enough holders")
 					}
 					early := rapid.IntRange(0, 2).Draw(t, "returnsOnItsOwn") == 0
+					x := ws[rapid.IntRange(0, len(ws)-1).Draw(t, "worker")]
+					started := len(x.insts)
 					fn := func(stop <-chan struct{}) {
-						if running.Add(1) > 1 {
-							overlap.Store(true)
+						if x.running.Add(1) > 1 {
+							x.overlap.Store(true)
 						}
 						in := &c17eInst{early: early, stop: stop}
-						mu.Lock()
-						in.id = len(insts)
-						insts = append(insts, in)
-						mu.Unlock()
+						x.mu.Lock()
+						in.id = len(x.insts)
+						x.insts = append(x.insts, in)
+						x.mu.Unlock()
 						if !early {
 							<-stop
 						}
 						in.returned.Store(true)
-						running.Add(-1)
+						x.running.Add(-1)
 					}
-					op := vkit.Launch("Worker.Do", func() any { return w.Do(fn) })
+					op := vkit.Launch("Worker.Do", func() any { return x.w.Do(fn) })
 					synctest.Wait()
 					if !op.Finished() {
 						fail("C17/do-blocked", "Do is still blocked at quiescence (every instance function returns as soon as it is told to stop, or earlier)")
@@ -131,22 +147,23 @@ func TestC17Early(t *testing.T) {
 						fail("C17/call-panic", "Do panicked: %v", op.Panic)
 					}
 					// the instance this holder belongs to: the latest one whose stop channel is open
-					mu.Lock()
+					x.mu.Lock()
 					var cur *c17eInst
-					for i := len(insts) - 1; i >= 0; i-- {
-						if !insts[i].stopped() {
-							cur = insts[i]
+					for i := len(x.insts) - 1; i >= 0; i-- {
+						if !x.insts[i].stopped() {
+							cur = x.insts[i]
 							break
 						}
 					}
-					mu.Unlock()
+					nowStarted := len(x.insts)
+					x.mu.Unlock()
 					if cur == nil {
-						fail("C17/held-without-instance", "Do returned but no instance with an open stop channel exists")
+						fail("C17/held-without-instance", "Do on worker %d returned but no instance of it with an open stop channel exists (instances of it started before/after this Do: %d/%d)", x.id, started, nowStarted)
 					}
-					h := &c17eHold{id: nHold, inst: cur, done: op.Res.(func())}
+					h := &c17eHold{id: nHold, w: x, inst: cur, done: op.Res.(func())}
 					nHold++
 					holds = append(holds, h)
-					trace = append(trace, fmt.Sprintf("do(early=%v)=h%d@i%d", early, h.id, cur.id))
+					trace = append(trace, fmt.Sprintf("w%d.do(early=%v)=h%d@i%d", x.id, early, h.id, cur.id))
 					check("after Do")
 				},
 				"done": func(t *rapid.T) {
@@ -181,6 +198,6 @@ func TestC17Early(t *testing.T) {
 				fail("C17+C12/goroutine-leak", "goroutines remain after every holder let go:\n%s", vkit.DescribeGoroutines(left))
 			}
 		})
-		st.Case(trace, sawEarlyHeld, "early-held:"+fmt.Sprint(sawEarlyHeld))
+		st.Case(trace, sawEarlyHeld, "early-held:"+fmt.Sprint(sawEarlyHeld), fmt.Sprintf("workers:%d", nWorkers))
 	})
 }
